@@ -60,7 +60,10 @@ func genC13Churn(g *Gen) any {
 		if sc.AcceptStall {
 			// (the frames of one stream travel on different connections)
 			sc.Writes = append(sc.Writes, g.Int(2, 4))
-			sc.ServerClose = append(sc.ServerClose, g.Bool(0.7))
+			// (the streams that merely fill the backlog are closed by the accepting
+			// side, and their openers do not wait: a thousand parked tasks make every
+			// scheduler step slow)
+			sc.ServerClose = append(sc.ServerClose, i < 1020 || g.Bool(0.7))
 			continue
 		}
 		sc.Writes = append(sc.Writes, g.Int(1, 4))
@@ -158,6 +161,9 @@ func runC13Churn(c *Ctx, scAny any) {
 			}
 		}
 		written++
+		if sc.AcceptStall && i < 1020 {
+			return // answered and closed by the accepting side once it is back
+		}
 		// wait for the answer (or the end of the stream), then close this side
 		buf := make([]byte, 64)
 		if sc.AcceptStall {
